@@ -276,9 +276,30 @@ type muxPair struct {
 	conns [2][]net.Conn
 }
 
-// connectPair creates the socket pair and both multiplexers and opens every id at both ends
-// before anything is written.
+// pairOpts are the options of the two multiplexers of a case.
+type pairOpts struct {
+	qlen     [2]int  // read queue length per mux
+	omitQLen [2]bool // do not pass WithReadQueueLength where the value is the package default (256)
+	blocked  [2]bool // WithBlockedRead; the caller calls Unblock
+	ids      []uint32
+	wrap     func(side int, c net.Conn) net.Conn
+}
+
+const defaultQLen = 256
+
+// connectPair creates the socket pair and both multiplexers with the same queue length and
+// opens every id at both ends before anything is written; with blocked both are created
+// WithBlockedRead and unblocked right after the ids were opened.
 func connectPair(qlen int, blocked bool, ids []uint32, wrap func(side int, c net.Conn) net.Conn) *muxPair {
+	p := connectPairOpts(pairOpts{qlen: [2]int{qlen, qlen}, blocked: [2]bool{blocked, blocked}, ids: ids, wrap: wrap})
+	if blocked {
+		p.m[0].Unblock()
+		p.m[1].Unblock()
+	}
+	return p
+}
+
+func connectPairOpts(o pairOpts) *muxPair {
 	sp, err := nrinet.NewSocketPair()
 	if err != nil {
 		panic(fmt.Sprintf("harness: socketpair: %v", err))
@@ -292,17 +313,20 @@ func connectPair(qlen int, blocked bool, ids []uint32, wrap func(side int, c net
 	}
 	for s := 0; s < 2; s++ {
 		p.trunk[s] = p.raw[s]
-		if wrap != nil {
-			p.trunk[s] = wrap(s, p.raw[s])
+		if o.wrap != nil {
+			p.trunk[s] = o.wrap(s, p.raw[s])
 		}
-		opts := []multiplex.Option{multiplex.WithReadQueueLength(qlen)}
-		if blocked {
+		var opts []multiplex.Option
+		if !(o.omitQLen[s] && o.qlen[s] == defaultQLen) {
+			opts = append(opts, multiplex.WithReadQueueLength(o.qlen[s]))
+		}
+		if o.blocked[s] {
 			opts = append(opts, multiplex.WithBlockedRead())
 		}
 		p.m[s] = multiplex.Multiplex(p.trunk[s], opts...)
 	}
 	for s := 0; s < 2; s++ {
-		for _, id := range ids {
+		for _, id := range o.ids {
 			c, err := p.m[s].Open(multiplex.ConnID(id))
 			if err != nil {
 				panic(fmt.Sprintf("harness: Open(%d): %v", id, err))
@@ -310,11 +334,29 @@ func connectPair(qlen int, blocked bool, ids []uint32, wrap func(side int, c net
 			p.conns[s] = append(p.conns[s], c)
 		}
 	}
-	if blocked {
-		p.m[0].Unblock()
-		p.m[1].Unblock()
-	}
 	return p
+}
+
+// idAllocator hands out connection ids that are not used by the case yet.
+type idAllocator struct {
+	used map[uint32]bool
+	next uint32
+}
+
+func newIDAllocator(ids []uint32) *idAllocator {
+	a := &idAllocator{used: map[uint32]bool{}, next: 1000}
+	for _, id := range ids {
+		a.used[id] = true
+	}
+	return a
+}
+
+func (a *idAllocator) fresh() uint32 {
+	for a.used[a.next] || a.next == 0 {
+		a.next++
+	}
+	a.used[a.next] = true
+	return a.next
 }
 
 // shutdown closes everything; it never blocks the caller for more than a moment.
@@ -328,8 +370,14 @@ func (p *muxPair) shutdown() {
 	}()
 	select {
 	case <-done:
-	case <-time.After(2 * time.Second):
+	case <-time.After(time.Second):
 	}
+	// let the reader goroutine of a mux that was never unblocked come to an end
+	func() {
+		defer func() { _ = recover() }()
+		p.m[0].Unblock()
+		p.m[1].Unblock()
+	}()
 	p.raw[0].Close()
 	p.raw[1].Close()
 }
@@ -498,7 +546,7 @@ func withHangConfirmation(prop string, c any, run func() (ev.Outcome, bool)) ev.
 		return o.(ev.Outcome)
 	}
 	settled := hangConfirmed.Load() || violationSeen.Load()
-	if settled && hangShrinkBudget.Add(1) > 1 && hangSeen.Load() {
+	if settled && hangShrinkBudget.Add(1) > 0 && hangSeen.Load() {
 		return ev.Outcome{Excluded: skippedAfterHang}
 	}
 	o, hang := run()
@@ -547,7 +595,7 @@ func withHangConfirmation(prop string, c any, run func() (ev.Outcome, bool)) ev.
 // reader goroutines of the two multiplexers, which end asynchronously after Close — are gone,
 // so that a panic on one of them still happens while the case is journalled.
 func settleGoroutines(base int) {
-	for i := 0; i < 400 && runtime.NumGoroutine() > base; i++ {
+	for i := 0; i < 250 && runtime.NumGoroutine() > base; i++ {
 		if i < 50 {
 			runtime.Gosched()
 		} else {
